@@ -271,3 +271,8 @@ func (v *VerifTerm) StartLoop() <-chan struct{} {
 func (v *VerifTerm) ReaderState() (start, end, capacity int) {
 	return v.gr.start, v.gr.end, len(v.gr.data)
 }
+
+// VerifReaderState exposes the buffer indices of any token reader.
+func VerifReaderState(r *GraphemeReader) (start, end, capacity int) {
+	return r.start, r.end, len(r.data)
+}
